@@ -157,7 +157,7 @@ def lex_property_check(src, res):
 
 
 def stream_lex(ctx):
-    cases = streams.lex_cases(ctx.rng, ctx.tier) + [(s_, 'corpus2') for s_ in P3.LEX_CORPUS + P4.LEX_CORPUS2 + P5.LEX_CORPUS3]
+    cases = streams.lex_cases(ctx.rng, ctx.tier) + [(s_, 'corpus2') for s_ in P3.LEX_CORPUS + P4.LEX_CORPUS2 + P5.LEX_CORPUS3 + P5.LEX_CORPUS4]
     fname = 't.pakhi'
     mk = lambda s: 'lex %s %s' % (enc(fname), enc(s))
     lines = [mk(s) for s, _ in cases]
@@ -197,7 +197,7 @@ def stream_lex(ctx):
 def _registry():
     S = simple_stream
     return {
-    'C01': {'proofs': 'C01', 'streams': [stream_expr, S('expr-programs', lambda rng, tier: P5.cross_type_equality_programs() + P3.temporaries_programs(rng, 4 if tier != 'thorough' else 30) + P4.higher_order_programs(rng, 60 if tier != 'thorough' else 400) + P4.concat_nested_identity_programs(rng, 60 if tier != 'thorough' else 400), flags='-', shrink=False)],
+    'C01': {'proofs': 'C01', 'streams': [stream_expr, S('expr-programs', lambda rng, tier: P5.cross_type_equality_programs() + P5.double_prefix_programs() + P3.temporaries_programs(rng, 4 if tier != 'thorough' else 30) + P4.higher_order_programs(rng, 60 if tier != 'thorough' else 400) + P4.concat_nested_identity_programs(rng, 60 if tier != 'thorough' else 400), flags='-', shrink=False)],
             'rule': 'expr stream: typed random operator trees (all 13 binary and 2 unary operators, calls, lists, records, nil) rendered with minimal, random-extra and whole-expression parentheses; 20% with ill-typed operands; non-trivial = every distinct program',
             'assumptions': ['operand evaluation order is modelled but not part of the statement (calls are to pure functions)', 'hardware floating point is tied to SpecFloat by the f64 stream only']},
     'C02': {'proofs': 'C02', 'streams': [stream_chains],
@@ -250,7 +250,7 @@ def _registry():
     'C19': {'proofs': 'C19', 'streams': [stream_compose],
             'rule': 'compose stream: P1 from early-exit constructs (return in loop in if, break in nested ifs, else-less ifs, finished loops/chains, allocation churn across the GC threshold), P2 generated with disjoint names (else chains, loops, calls, allocation): P1;P2 vs P1 and P2 alone, and vs the model',
             'assumptions': []},
-    'C20': {'proofs': 'C20', 'streams': [stream_fs, stream_fs_respell, stream_stdin],
+    'C20': {'proofs': 'C20', 'streams': [stream_fs, stream_fs_respell, stream_stdin, stream_fs_bytes],
             'rule': 'fs stream: random sequences of the 7 file built-ins over a small path tree in a scratch directory, final file-system state dumped and compared with the model; stdin stream: built binary with piped input',
             'assumptions': ['the operating system is assumed to implement std::fs as the finite-map model; permissions, symlinks, non-UTF-8 names are not exercised']},
     }
@@ -695,7 +695,7 @@ def stream_numbers(ctx):
 
 
 # ---- C11 layout
-SEP_CHOICES = [' ', '\t', '\n', '\r\n', '  ', ' \n\t ', '']
+SEP_CHOICES = [' ', '\t', '\n', '\r\n', '  ', ' \n\t ', '\r', '']
 
 
 OPERAND_END = lambda t: t[-1] in ')]' or t.startswith('"') or t in ('সত্য', 'মিথ্যা') or _is_number(t) or _is_ident(t)
@@ -742,6 +742,7 @@ def layout(rng, stmts, mode):
             need = needs_sep(prev, t, nxt)
             if mode == 'min': sep = ' ' if need else ''
             elif mode == 'canon': sep = ' '
+            elif mode in ('cr', 'crlf', 'tab', 'lf'): sep = {'cr': '\r', 'crlf': '\r\n', 'tab': '\t', 'lf': '\n'}[mode]
             else:
                 sep = rng.choice(SEP_CHOICES)
                 if sep == '' and need: sep = rng.choice(SEP_CHOICES[:5])
@@ -775,7 +776,7 @@ def stream_layout(ctx):
                ['দেখাও', '[', '"ক"', '১', '"খ"', '[', '"গ"', '"ঘ"', ']', ']', ';'], ['দেখাও', '_লিস্ট-লেন', '(', '[', '""', '""', '"a"', '""', ']', ')', ';'], ['দেখাও', '[', '"ক"', '"খ"', ']', '+', '[', '"গ"', ']', ';']]]
     cases = []
     for gi, st in enumerate(progs):
-        variants = [('canon', layout(ctx.rng, st, 'canon')), ('min', layout(ctx.rng, st, 'min'))]
+        variants = [('canon', layout(ctx.rng, st, 'canon')), ('min', layout(ctx.rng, st, 'min'))] + [(m_, layout(ctx.rng, st, m_)) for m_ in ('cr', 'crlf', 'tab', 'lf')]
         for j in range(nlay - 3): variants.append(('rand', layout(ctx.rng, st, 'rand')))
         stc = with_comments(ctx.rng, st)
         # comments go between statements: keep separators around them
@@ -866,7 +867,7 @@ def stream_parse(ctx):
         toks = f.split(' ')
         for k in range(len(toks) + 1): srcs.append((' '.join(toks[:k]), 'truncated-form'))
         for k in range(len(toks)): srcs.append((' '.join(toks[:k] + toks[k + 1:]), 'form-minus-one'))
-    srcs += P3.parse_sources()
+    srcs += P3.parse_sources() + [(c_['src'], c_['kind']) for c_ in P5.parse_edge_programs()]
     lines = [parse_line(s) for s, _ in srcs]
     # imports: alias spellings, comments around the splice point, failures
     modsrc = 'নাম মান = ৯;\nফাং দেখ() {\n    ফেরত মান;\n} ফেরত;\n'
@@ -1004,6 +1005,49 @@ def stream_compose(ctx):
             cls = 'D29-import-name-extends-another' if any(b.startswith(a + '/') for a in n1 for b in n2) and e12[:2] == ('err', 'Runtime') else None
             ctx.failing.append({'stream': 'compose', 'class': cls, 'why': 'P1;P2 does not behave as P1 followed by P2 alone', 'source': cases[i + 2]['src'], 'case_line': case_line(cases[i + 2], None, '-'),
                                 'implementation': str((o12, e12))[:1500], 'expected': str((want_out, want_end))[:1500], 'p2_alone': str((o2, e2))[:800]})
+
+
+# ---- C20: a file that is not valid UTF-8 (implementation only: the model's files are texts)
+def stream_fs_bytes(ctx):
+    ok, err = vlib.build_pakhi_bin()
+    if not ok:
+        ctx.broken.append('the command-line tool does not build: ' + err[-300:]); return
+    import subprocess, shutil
+    d = os.path.join(vlib.SCRATCH, 'fsb_%d' % os.getpid())
+    os.makedirs(d, exist_ok=True)
+    n = 0
+    for name, data in [('latin1.txt', b'caf\xe9 cr\xe8me'), ('cut.txt', 'বাংলা'.encode('utf-8')[:-1]), ('bin.dat', bytes(range(200, 256))), ('bom16.txt', b'\xff\xfea\x00')]:
+        open(os.path.join(d, name), 'wb').write(data)
+        src = 'দেখাও "আগে";\nনাম ত = _রিড-ফাইল("%s");\nদেখাও "পরে";\nদেখাও ত;\n' % name
+        open(os.path.join(d, 'p.pakhi'), 'w', encoding='utf-8').write(src)
+        try:
+            r = subprocess.run([vlib.PAKHI_BIN, 'p.pakhi'], cwd=d, capture_output=True, timeout=20, stdin=subprocess.DEVNULL)
+        except subprocess.TimeoutExpired:
+            ctx.failing.append({'stream': 'fs-bytes', 'why': 'command-line tool hangs', 'source': src}); continue
+        n += 1
+        so, se = r.stdout.decode('utf-8', 'replace'), r.stderr.decode('utf-8', 'replace')
+        if r.returncode != 1 or so != 'আগে\n' or not se.startswith('RuntimeError') or 'panicked' in se:
+            ctx.failing.append({'stream': 'fs-bytes', 'why': 'reading a file that is not valid UTF-8 is not a located runtime error (status %d, stdout %r)' % (r.returncode, so[:80]),
+                                'source': src, 'file': name, 'stderr': se[:300]})
+    # paths with '..' components are resolved by the operating system, component by component: a missing directory in
+    # front of '..' is an error, and '..' above the working directory leaves it
+    for src, status, stdout in [('দেখাও "আগে";\nদেখাও _রাইট-ফাইল("নাই/../f.txt", "x");\nদেখাও "পরে";\n', 1, 'আগে\n'),
+                                ('দেখাও _নতুন-ডাইরেক্টরি("d");\nদেখাও _রাইট-ফাইল("d/../g.txt", "x");\nদেখাও _রিড-ফাইল("g.txt");\nদেখাও _রিড-ফাইল("./d/../g.txt");\n', 0, 'সত্য\nসত্য\nx\nx\n'),
+                                ('দেখাও _নতুন-ডাইরেক্টরি("a");\nদেখাও _রাইট-ফাইল("a/../../উপরে_%d.txt", "y");\nদেখাও "লেখা হল";\nদেখাও _ফাইল-নাকি-ডাইরেক্টরি("উপরে_%d.txt");\n' % (os.getpid(), os.getpid()), 1, 'সত্য\nসত্য\nলেখা হল\n')]:
+        open(os.path.join(d, 'p.pakhi'), 'w', encoding='utf-8').write(src)
+        try:
+            r = subprocess.run([vlib.PAKHI_BIN, 'p.pakhi'], cwd=d, capture_output=True, timeout=20, stdin=subprocess.DEVNULL)
+        except subprocess.TimeoutExpired:
+            ctx.failing.append({'stream': 'fs-bytes', 'why': 'command-line tool hangs', 'source': src}); continue
+        n += 1
+        so, se = r.stdout.decode('utf-8', 'replace'), r.stderr.decode('utf-8', 'replace')
+        if r.returncode != status or so != stdout or 'panicked' in se:
+            ctx.failing.append({'stream': 'fs-bytes', 'why': "a path with '..' components does not name the file the operating system resolves it to (status %d, stdout %r)" % (r.returncode, so[:120]), 'source': src, 'stderr': se[:300]})
+    try: os.remove(os.path.join(vlib.SCRATCH, 'উপরে_%d.txt' % os.getpid()))
+    except OSError: pass
+    shutil.rmtree(d, ignore_errors=True)
+    ctx.evaluations += n; ctx.validated += n
+    ctx.streams.append({'stream': 'fs-bytes', 'cases': n, 'rule': 'built pakhi binary, files with invalid UTF-8: exit status 1, nothing printed after the read, RuntimeError on stderr'})
 
 
 # ---- C20 fs
